@@ -59,6 +59,10 @@ CLAIMED = {
    text="Proof (Lean 4): C05_old_new_or_invalid — for a kill before any step of the install phase the object is the old state, the new state, or a state satisfying one of the conditions rocfl's validator reports; C05_old_new_not_flagged; C05_version_dir_moves_once (the new version directory is entirely in staging or entirely in the object). Tied to the code by SIGKILL injection before every mutating system call of real commits: previously committed version directories byte-identical, every content file of the new version in full in staging or in the object, and `rocfl validate` exits 2 whenever the state is neither old nor new.",
    note="Trusted: Lean kernel + 3 standard axioms; process-kill model (calls already made are durable and ordered; no fsync modelling); flaggedInvalid is tied to the real validator by the enumeration.",
    technique="Lean 4 exhaustive proof over the commit step table + strace kill-point enumeration on the real binary", design="§5-C05"),
+ "C17": dict(
+   text="Proof (Lean 4), partial: for the one loop of the validator whose trip count depended on values in the input (validate_version_nums) C17_version_check_linear proves that iterations + emitted results are at most 102 per version entry for every list of version numbers; C17_version_errors_linear, C17_stops_at_u32_max; C17_gap_witness_before_fix proves (symbolically, for every n) that the unrepaired loop cost n iterations for one key v(n+1). The model is tied by comparing E010 counts on generated version-key sets. Panic-freedom and bounded time/memory of the rest of the validator are decided by a mutation run: structure-aware and raw mutants of inventories, sidecars, declarations and directory structures (symlink loops, FIFOs, files for directories), each validated in-process under catch_unwind with a wall-clock limit and RLIMIT_AS; the repository validator must carry on after a broken object.",
+   note="Trusted: Lean kernel + 3 standard axioms; time and memory judged through proxies (wall clock, result count, address-space limit); serde_json's recursion limit and parsing are exercised, not modelled.",
+   technique="Lean 4 cost-bound theorem for the version-number loop + guarded mutation run against the real validator", design="§5-C17"),
 }
 NOT_YET = "not claimed yet: model/theorems for this property are still under construction in this round (see DESIGN.md §11 order of work)"
 checks = []
